@@ -1600,6 +1600,7 @@ pub fn codegen(
 
     let mut prev_undefined = HashSet::new();
     let mut prev_errors = Diagnostics::default().with_code_map(&ctx.tree.code_map);
+    let mut last_failed_errors = Diagnostics::default().with_code_map(&ctx.tree.code_map);
     let mut prev_symbol_values = vec![];
 
     let mut errors = Diagnostics::default().with_code_map(&ctx.tree.code_map);
@@ -1699,7 +1700,12 @@ pub fn codegen(
             }
         }
 
-        prev_errors = errors;
+        // (the passes of a program that never settles may alternate between failing and succeeding: remember what the last
+        // failing pass reported)
+        let older_errors = std::mem::replace(&mut prev_errors, errors);
+        if !older_errors.is_empty() {
+            last_failed_errors = older_errors;
+        }
         errors = Diagnostics::default().with_code_map(&ctx.tree.code_map);
         prev_symbol_values = symbol_values;
 
@@ -1709,7 +1715,11 @@ pub fn codegen(
     // Some programs never settle (e.g. a branch that is only out of range when another branch is in range).
     // Instead of assembling forever, report what went wrong in the last pass.
     if ctx.pass_idx == MAX_ITERATIONS {
-        let mut errors = prev_errors;
+        let mut errors = if prev_errors.is_empty() {
+            last_failed_errors
+        } else {
+            prev_errors
+        };
         errors.push(Diagnostic::error().with_message(format!(
             "assembly did not settle after {} passes",
             MAX_ITERATIONS
